@@ -222,6 +222,195 @@ impl BuiltInObject for Json {
     const NAME: JsString = StaticJsStrings::JSON;
 }
 
+/// Checks that `text` is a JSON text as specified in [ECMA-404][spec].
+///
+/// The text is a sequence of UTF-16 code units: ECMA-404 places no restriction on the code
+/// points inside a string other than `"`, `\` and the control characters, so unpaired
+/// surrogates (escaped or not) are valid, and a number is valid whatever its magnitude.
+///
+/// [spec]: https://ecma-international.org/publications-and-standards/standards/ecma-404/
+fn validate_json_text(text: &[u16]) -> Result<(), String> {
+    #[derive(Clone, Copy, PartialEq)]
+    enum Container {
+        Array,
+        Object,
+    }
+
+    fn unexpected(text: &[u16], i: usize) -> String {
+        if i < text.len() {
+            format!("unexpected character at position {i} of the JSON text")
+        } else {
+            "unexpected end of the JSON text".to_owned()
+        }
+    }
+
+    fn is(text: &[u16], i: usize, c: u8) -> bool {
+        text.get(i) == Some(&u16::from(c))
+    }
+
+    fn is_digit(text: &[u16], i: usize) -> bool {
+        text.get(i)
+            .is_some_and(|c| (u16::from(b'0')..=u16::from(b'9')).contains(c))
+    }
+
+    fn skip_whitespace(text: &[u16], mut i: usize) -> usize {
+        while is(text, i, b' ') || is(text, i, b'\t') || is(text, i, b'\n') || is(text, i, b'\r') {
+            i += 1;
+        }
+        i
+    }
+
+    /// `text[i]` is the opening quote; returns the index after the closing quote.
+    fn string(text: &[u16], mut i: usize) -> Result<usize, String> {
+        i += 1;
+        loop {
+            match text.get(i).copied() {
+                Some(0x22) => return Ok(i + 1),
+                Some(0x5C) => {
+                    i += 1;
+                    match text.get(i).copied().and_then(|c| u8::try_from(c).ok()) {
+                        Some(b'"' | b'\\' | b'/' | b'b' | b'f' | b'n' | b'r' | b't') => i += 1,
+                        Some(b'u') => {
+                            for k in 1..=4 {
+                                let hex = text
+                                    .get(i + k)
+                                    .and_then(|c| u8::try_from(*c).ok())
+                                    .is_some_and(|c| c.is_ascii_hexdigit());
+                                if !hex {
+                                    return Err(unexpected(text, i + k));
+                                }
+                            }
+                            i += 5;
+                        }
+                        _ => return Err(unexpected(text, i)),
+                    }
+                }
+                Some(c) if c >= 0x20 => i += 1,
+                _ => return Err(unexpected(text, i)),
+            }
+        }
+    }
+
+    /// `text[i]` is `-` or a digit; returns the index after the number.
+    fn number(text: &[u16], mut i: usize) -> Result<usize, String> {
+        if is(text, i, b'-') {
+            i += 1;
+        }
+        if is(text, i, b'0') {
+            i += 1;
+        } else if is_digit(text, i) {
+            while is_digit(text, i) {
+                i += 1;
+            }
+        } else {
+            return Err(unexpected(text, i));
+        }
+        if is(text, i, b'.') {
+            i += 1;
+            if !is_digit(text, i) {
+                return Err(unexpected(text, i));
+            }
+            while is_digit(text, i) {
+                i += 1;
+            }
+        }
+        if is(text, i, b'e') || is(text, i, b'E') {
+            i += 1;
+            if is(text, i, b'+') || is(text, i, b'-') {
+                i += 1;
+            }
+            if !is_digit(text, i) {
+                return Err(unexpected(text, i));
+            }
+            while is_digit(text, i) {
+                i += 1;
+            }
+        }
+        Ok(i)
+    }
+
+    /// `text[i]` starts a member of an object; returns the index of its value.
+    fn member_name(text: &[u16], i: usize) -> Result<usize, String> {
+        if !is(text, i, b'"') {
+            return Err(unexpected(text, i));
+        }
+        let i = skip_whitespace(text, string(text, i)?);
+        if !is(text, i, b':') {
+            return Err(unexpected(text, i));
+        }
+        Ok(skip_whitespace(text, i + 1))
+    }
+
+    let mut open = Vec::new();
+    let mut i = skip_whitespace(text, 0);
+    loop {
+        // A value starts at `i`.
+        let c = text.get(i).copied().and_then(|c| u8::try_from(c).ok());
+        i = match c {
+            Some(b'{') => {
+                i = skip_whitespace(text, i + 1);
+                if is(text, i, b'}') {
+                    i + 1
+                } else {
+                    open.push(Container::Object);
+                    i = member_name(text, i)?;
+                    continue;
+                }
+            }
+            Some(b'[') => {
+                i = skip_whitespace(text, i + 1);
+                if is(text, i, b']') {
+                    i + 1
+                } else {
+                    open.push(Container::Array);
+                    continue;
+                }
+            }
+            Some(b'"') => string(text, i)?,
+            Some(b'-' | b'0'..=b'9') => number(text, i)?,
+            Some(b't' | b'f' | b'n') => {
+                let literal: &[u8] = match c {
+                    Some(b't') => b"true",
+                    Some(b'f') => b"false",
+                    _ => b"null",
+                };
+                for (k, l) in literal.iter().enumerate() {
+                    if !is(text, i + k, *l) {
+                        return Err(unexpected(text, i + k));
+                    }
+                }
+                i + literal.len()
+            }
+            _ => return Err(unexpected(text, i)),
+        };
+
+        // A value ended before `i`.
+        loop {
+            i = skip_whitespace(text, i);
+            match open.last() {
+                None if i == text.len() => return Ok(()),
+                Some(Container::Array) if is(text, i, b',') => {
+                    i = skip_whitespace(text, i + 1);
+                    break;
+                }
+                Some(Container::Object) if is(text, i, b',') => {
+                    i = member_name(text, skip_whitespace(text, i + 1))?;
+                    break;
+                }
+                Some(Container::Array) if is(text, i, b']') => {
+                    open.pop();
+                    i += 1;
+                }
+                Some(Container::Object) if is(text, i, b'}') => {
+                    open.pop();
+                    i += 1;
+                }
+                _ => return Err(unexpected(text, i)),
+            }
+        }
+    }
+}
+
 impl Json {
     /// `JSON.parse( text[, reviver] )`
     ///
@@ -241,24 +430,32 @@ impl Json {
             .first()
             .cloned()
             .unwrap_or_default()
-            .to_string(context)?
-            .to_std_string()
-            .map_err(|e| JsNativeError::syntax().with_message(e.to_string()))?;
+            .to_string(context)?;
+        let json_units = json_string.iter().collect::<Vec<u16>>();
 
         // 2. Parse ! StringToCodePoints(jsonString) as a JSON text as specified in ECMA-404.
         //    Throw a SyntaxError exception if it is not a valid JSON text as defined in that specification.
-        if let Err(e) = serde_json::from_str::<serde_json::Value>(&json_string) {
-            return Err(JsNativeError::syntax().with_message(e.to_string()).into());
+        if let Err(message) = validate_json_text(&json_units) {
+            // Prefer the more detailed diagnostic of `serde_json` when it can provide one.
+            let message = json_string
+                .to_std_string()
+                .ok()
+                .and_then(|text| serde_json::from_str::<serde_json::Value>(&text).err())
+                .map_or(message, |e| e.to_string());
+            return Err(JsNativeError::syntax().with_message(message).into());
         }
 
         // Check if a reviver is provided, to determine if we need source text tracking
         let has_reviver = args.get_or_undefined(1).is_callable();
 
         // 3. Let scriptString be the string-concatenation of "(", jsonString, and ");".
-        let script_string = format!("({json_string});");
+        let script_units = once(u16::from(b'('))
+            .chain(json_units)
+            .chain([u16::from(b')'), u16::from(b';')])
+            .collect::<Vec<u16>>();
 
         // 4-10. Parse and evaluate the script
-        let source = Source::from_bytes(&script_string);
+        let source = Source::from_utf16(&script_units);
         let mut parser = Parser::new(source);
         parser.set_json_parse();
 
